@@ -264,6 +264,7 @@ type desc struct {
 	host, le   bool
 	pub, priv  string
 	match      bool
+	near       string // "" | "m": leaf key is a near miss of the private key (EC: same X, other Y; RSA: one bit of N flipped) | "e": RSA same N, other E
 }
 
 func parseDesc(s string) (d desc, ok bool) {
@@ -276,10 +277,32 @@ func parseDesc(s string) (d desc, ok bool) {
 	d.na, _ = strconv.ParseInt(f[3], 10, 64)
 	d.host, d.le = f[4] == "1", f[5] == "1"
 	d.pub, d.priv, d.match = f[6], f[7], f[8] == "1"
+	if f[8] == "m" || f[8] == "e" {
+		d.near = f[8]
+	}
 	return d, true
 }
 
 var serial atomic.Int64
+
+// nearMiss returns a public key that differs from pub in one component only.
+func nearMiss(pub crypto.PublicKey, kind string) crypto.PublicKey {
+	switch p := pub.(type) {
+	case *ecdsa.PublicKey: // the public key of n-d: same X, Y replaced by p-Y (still on the curve)
+		return &ecdsa.PublicKey{Curve: p.Curve, X: new(big.Int).Set(p.X), Y: new(big.Int).Sub(p.Curve.Params().P, p.Y)}
+	case *rsa.PublicKey:
+		if kind == "e" { // same modulus, other exponent
+			e := 3
+			if p.E == 3 {
+				e = 65537
+			}
+			return &rsa.PublicKey{N: new(big.Int).Set(p.N), E: e}
+		}
+		n := new(big.Int).Set(p.N) // same exponent, one bit of the modulus flipped (kept odd)
+		return &rsa.PublicKey{N: n.SetBit(n, 7, n.Bit(7)^1), E: p.E}
+	}
+	return pub
+}
 
 // makeCert builds a leaf for `domain` as the descriptor says. pubKey == nil: choose a key by d.pub/d.match
 // (match → the key that is also stored as the private key). Returns DER and the private key to store.
@@ -292,7 +315,13 @@ func makeCert(d desc, domain string, csrPub crypto.PublicKey) (der []byte, priv 
 	default:
 		priv = k.ec[0]
 	}
+	base := priv.Public() // the key the leaf should certify
+	if csrPub != nil {
+		base = csrPub
+	}
 	switch {
+	case d.near != "":
+		pub = nearMiss(base, d.near)
 	case csrPub != nil && d.match:
 		pub = csrPub
 	case d.match:
@@ -1007,7 +1036,17 @@ func genHello(r *hx.Rand, g *hx.Gen, pfx, name string, kind int) string {
 		sigs = u16s(subset(r, sigPool), r.Chance(1, 4))
 		curves = u16s(subset(r, curvePool), r.Chance(1, 4))
 		suites = hx.JoinInts(subset(r, suitePool))
+		if r.Chance(1, 2) { // exactly one entry of each ECDSA table decides (first and last entries included)
+			sc, su := sigPool[r.Intn(4)], suitePool[r.Intn(7)]
+			sigs = u16s([]int{0x0804, sc, 0x0401}, false)
+			suites = hx.JoinInts([]int{0x1301, 0xc02f, su})
+			curves = u16s([]int{29, 23}, false)
+			hit("ecdsaSchemes", 4, fmt.Sprint(sc))
+			hit("ecdsaSuites", 7, fmt.Sprint(su))
+			g.Stat("hello.single-deciding-table-entry")
+		}
 	}
+	hit("hello-protos", 5, protos)
 	return fmt.Sprintf(" %sname=%s %sprotos=%s %ssigs=%s %scurves=%s %ssuites=%s %sascii=%s", pfx, hx.Hex([]byte(name)), pfx, protos, pfx, sigs, pfx, curves, pfx, suites, pfx, asciiOf(name))
 }
 
@@ -1029,9 +1068,11 @@ func genDesc(r *hx.Rand, g *hx.Gen, id int, now int64, wantType, dom string) str
 	case 0:
 		na = now - int64(r.Range(1, 1000))
 		g.Stat("cert.expired")
+		hit("validCert-defect", 12, "expired")
 	case 1:
 		nb = now + int64(r.Range(1, 1000))
 		g.Stat("cert.not-yet-valid")
+		hit("validCert-defect", 12, "not-yet-valid")
 	case 2:
 		if r.Bool() {
 			na = now
@@ -1039,6 +1080,7 @@ func genDesc(r *hx.Rand, g *hx.Gen, id int, now int64, wantType, dom string) str
 			nb = now
 		}
 		g.Stat("cert.now-on-boundary")
+		hit("validCert-defect", 12, "now-on-boundary")
 	case 3:
 		if r.Bool() {
 			na = now - 1
@@ -1046,12 +1088,15 @@ func genDesc(r *hx.Rand, g *hx.Gen, id int, now int64, wantType, dom string) str
 			nb = now + 1
 		}
 		g.Stat("cert.one-second-off")
+		hit("validCert-defect", 12, "one-second-off")
 	case 4:
 		host = 0
 		g.Stat("cert.foreign-name")
+		hit("validCert-defect", 12, "foreign-name")
 	case 5:
 		match = 0
 		g.Stat("cert.key-mismatch")
+		hit("validCert-defect", 12, "key-mismatch")
 	case 6:
 		match = 0
 		if wantType == "rsa" {
@@ -1060,6 +1105,7 @@ func genDesc(r *hx.Rand, g *hx.Gen, id int, now int64, wantType, dom string) str
 			pub = "rsa"
 		}
 		g.Stat("cert.key-type-mismatch")
+		hit("validCert-defect", 12, "key-type-mismatch")
 	case 7:
 		if wantType == "rsa" {
 			pub, priv = "ec", "ec"
@@ -1067,18 +1113,36 @@ func genDesc(r *hx.Rand, g *hx.Gen, id int, now int64, wantType, dom string) str
 			pub, priv = "rsa", "rsa"
 		}
 		g.Stat("cert.wrong-key-type-for-certkey")
+		hit("validCert-defect", 12, "wrong-key-type-for-certkey")
 	case 8:
 		pub, match = "other", 0
 		g.Stat("cert.ed25519")
+		hit("validCert-defect", 12, "ed25519")
+	case 10, 11: // near miss: the leaf key shares a component with the private key
+		g.Stat("cert.key-near-miss")
+		hit("validCert-defect", 12, "key-near-miss")
+		return finishDesc(g, id, nb, na, host, le, wantType, wantType, "m", dom)
+	case 12:
+		if wantType == "rsa" { // same modulus, other public exponent: validCert compares the modulus only
+			g.Stat("cert.rsa-same-modulus-other-exponent")
+			hit("validCert-defect", 12, "rsa-same-n-other-e")
+			return finishDesc(g, id, nb, na, host, le, "rsa", "rsa", "e", dom)
+		}
 	case 9:
 		le = 1
 		g.Stat("cert.lets-encrypt-issuer")
+		hit("validCert-defect", 12, "lets-encrypt-issuer")
 	}
+	return finishDesc(g, id, nb, na, host, le, pub, priv, fmt.Sprint(match), dom)
+}
+
+func finishDesc(g *hx.Gen, id int, nb, na int64, host, le int, pub, priv, match, dom string) string {
+	hit("cert-key-type", 3, pub)
 	if host == 1 && !hostRealisable(id, dom) {
 		host = 0
 		g.Stat("cert.name-not-a-valid-hostname")
 	}
-	return fmt.Sprintf("c/%d/%d/%d/%d/%d/%s/%s/%d", id, nb, na, host, le, pub, priv, match)
+	return fmt.Sprintf("c/%d/%d/%d/%d/%d/%s/%s/%s", id, nb, na, host, le, pub, priv, match)
 }
 
 func genWorldAndCalls(g *hx.Gen, mode string) {
@@ -1086,6 +1150,8 @@ func genWorldAndCalls(g *hx.Gen, mode string) {
 	var sb strings.Builder
 	sb.WriteString(mode)
 	g.Stat("op." + mode)
+	feats := []string{"mode-" + mode}
+	defer func() { pairs(g, feats...) }()
 	// clock: usually 2030; sometimes around the Let's Encrypt revocation cut-off
 	now := int64(1893456000 + r.Intn(1000000))
 	if r.Chance(1, 6) {
@@ -1096,12 +1162,23 @@ func genWorldAndCalls(g *hx.Gen, mode string) {
 	if !r.Chance(1, 3) {
 		name = hx.Pick(r, rawNames[:8])
 	}
+	switch a := asciiOf(name); {
+	case a == "err" || !strings.Contains(strings.Trim(name, "."), "."):
+		feats = append(feats, "name-rejected")
+	case strings.HasSuffix(name, "."):
+		feats = append(feats, "name-trailing-dot")
+	case a != hx.Hex([]byte(name)):
+		feats = append(feats, "name-idna-mapped")
+	default:
+		feats = append(feats, "name-plain")
+	}
 	// whitelist
 	var wlraw []string
 	switch r.Intn(8) {
 	case 0:
 		sb.WriteString(" wlraw=nil wl=nil")
 		g.Stat("policy.nil")
+		feats = append(feats, "policy-nil")
 	default:
 		for _, h := range wlPool {
 			if r.Chance(1, 4) {
@@ -1119,6 +1196,11 @@ func genWorldAndCalls(g *hx.Gen, mode string) {
 			}
 		}
 		fmt.Fprintf(&sb, " wlraw=%s wl=%s", hx.JoinStrs(wr), hx.JoinStrs(wa))
+		if a := asciiOf(name); a != "err" && strings.Contains(","+hx.JoinStrs(wa)+",", ","+a+",") {
+			feats = append(feats, "policy-listed")
+		} else {
+			feats = append(feats, "policy-unlisted")
+		}
 	}
 	// cache
 	ascii := asciiOf(name)
@@ -1137,6 +1219,7 @@ func genWorldAndCalls(g *hx.Gen, mode string) {
 	if r.Chance(1, 10) {
 		sb.WriteString(" cache=nil")
 		g.Stat("cache.none")
+		feats = append(feats, "cache-none")
 	} else {
 		var ents []string
 		full, _ := unhexStr(ascii)
@@ -1153,19 +1236,28 @@ func genWorldAndCalls(g *hx.Gen, mode string) {
 			case c < 1:
 				val = "err"
 				g.Stat("cache.get-error")
+				hit("cache-entry-kind", 9, "err")
 			case c < 2:
 				val = "badkey"
 				g.Stat("cache.bad-private-key")
+				hit("cache-entry-kind", 9, "badkey")
 			case c < 5:
 				val = fmt.Sprintf("miss%d", r.Intn(6))
 				g.Stat("cache.unusable-entry")
+				hit("cache-entry-kind", 9, val)
 			default:
 				val = genDesc(r, g, id, now, k.typ, kdom)
 				noteNA(val)
+				hit("cache-entry-kind", 9, "cert")
 			}
 			ents = append(ents, hx.Hex([]byte(k.key))+":"+val)
 		}
 		fmt.Fprintf(&sb, " cache=%s", hx.JoinStrs(ents))
+		if len(ents) == 0 {
+			feats = append(feats, "cache-empty")
+		} else {
+			feats = append(feats, "cache-entries")
+		}
 	}
 	sb.WriteString(" state=-")
 	// account registration and CSR: Prompt / terms of service, Email, ExternalAccountBinding, ExtraExtensions, ForceRSA
@@ -1176,6 +1268,7 @@ func genWorldAndCalls(g *hx.Gen, mode string) {
 		}
 		fmt.Fprintf(&sb, " acct=%d/%s/%s/%d/%d", terms, prompt, email, eab, ext)
 		g.Stat("acct.fields-set")
+		feats = append(feats, "acct-fields-set")
 		if terms == 1 && prompt == "nil" {
 			g.Stat("acct.terms-without-prompt")
 		}
@@ -1194,6 +1287,7 @@ func genWorldAndCalls(g *hx.Gen, mode string) {
 	if r.Chance(1, 8) {
 		sb.WriteString(" ca=refuse")
 		g.Stat("ca.refuses-order")
+		feats = append(feats, "ca-refuses")
 	} else {
 		d := genDesc(r, g, 0, now, "ec", dom)
 		noteNA(d)
@@ -1212,20 +1306,28 @@ func genWorldAndCalls(g *hx.Gen, mode string) {
 		}
 		fmt.Fprintf(&sb, " tokens=%s", hx.JoinStrs(toks))
 		g.Stat("tokens.in-memory")
+		feats = append(feats, "tokens-in-memory")
 	}
 	switch mode {
 	case "gc":
 		kind := 0
 		if r.Chance(1, 2) {
 			kind = 1
-		} else if r.Chance(1, 6) {
+		} else if r.Chance(1, 2) {
 			kind = 2
 		}
-		sb.WriteString(genHello(r, g, "", name, kind))
+		hs := genHello(r, g, "", name, kind)
+		sb.WriteString(hs)
+		if strings.Contains(hs, "protos="+hx.Hex([]byte("acme-tls/1"))+" ") {
+			feats = append(feats, "hello-challenge")
+		} else {
+			feats = append(feats, fmt.Sprintf("hello-kind%d", kind))
+		}
 		fmt.Fprintf(&sb, " now=%d", now)
 		if r.Chance(1, 3) {
 			sb.WriteString(" via=tls")
 			g.Stat("manager.TLSConfig")
+			feats = append(feats, "via-TLSConfig")
 		}
 	case "hist":
 		// two or three hellos for the same (or a sibling) name; the clock moves between calls
@@ -1287,8 +1389,8 @@ func genWorldAndCalls(g *hx.Gen, mode string) {
 }
 
 func gen(g *hx.Gen) {
-	genNext(g, g.Count(10000, 1000000))
-	ngc := g.Count(320, 12000)
+	genNext(g, g.Count(8000, 1000000))
+	ngc := g.Count(1200, 12000)
 	for i := 0; i < ngc; i++ {
 		if i%4 == 1 {
 			for k := 0; k < 4; k++ {
@@ -1305,6 +1407,7 @@ func gen(g *hx.Gen) {
 			genWorldAndCalls(g, "conc")
 		}
 	}
+	flushTables(g)
 }
 
 // ------------------------------------------------------------------ HTTPHandler, DirCache
@@ -1479,6 +1582,39 @@ func exec(line string) string {
 		return execDirc(o)
 	}
 	return "bad-op"
+}
+
+
+// ------------------------------------------------------------------ coverage bookkeeping (pairs of features, table arms)
+
+var tableHits = map[string]map[string]bool{}
+var tableSize = map[string]int{}
+
+// hit records that arm `arm` of the table / switch `name` (which has `total` arms) was produced.
+func hit(name string, total int, arm string) {
+	if tableHits[name] == nil {
+		tableHits[name] = map[string]bool{}
+	}
+	tableHits[name][arm] = true
+	tableSize[name] = total
+}
+
+func flushTables(g *hx.Gen) {
+	for name, arms := range tableHits {
+		g.Stat(fmt.Sprintf("table.%s=%d/%d", name, len(arms), tableSize[name]))
+	}
+}
+
+// pairs counts every unordered pair of the features of one generated case.
+func pairs(g *hx.Gen, feats ...string) {
+	sort.Strings(feats)
+	for i := range feats {
+		for j := i + 1; j < len(feats); j++ {
+			if feats[i] != feats[j] {
+				g.Stat("pair." + feats[i] + "+" + feats[j])
+			}
+		}
+	}
 }
 
 func main() { hx.Main(hx.Harness{Gen: gen, Exec: exec, OpTimeout: 60 * time.Second}) }
